@@ -13,7 +13,7 @@ import (
 
 // C18 — Key shares are fresh, correctly sized, and backed by the matching private key.
 func TestC18(t *testing.T) {
-	r := mon.New("C18", "parrots, Golang, seeded randomized and generated custom specs x N connections (fresh spec per connection, and one spec object reused for consecutive connections): key_exchange sizes per group from the strictly parsed extension; exactly-once monitor (hash set) over every non-GREASE key_exchange value, client random and session id of the whole run; QUIC hellos carry an empty session id; and for every share a hello carries, a server pinned to that group (CurvePreferences) completes the handshake with data echo (equal secrets). distinct = (target family, group, outcome)")
+	r := mon.New("C18", "parrots, Golang, seeded randomized and generated custom specs, and specs carrying every ordered pair of shareable groups (classical and hybrid) x N connections (fresh spec per connection, and one spec object reused for consecutive connections): key_exchange sizes per group from the strictly parsed extension; exactly-once monitor (hash set) over every non-GREASE key_exchange value, client random and session id of the whole run; QUIC hellos carry an empty session id; and for every share a hello carries, a server pinned to that group (CurvePreferences) completes the handshake with data echo (equal secrets). distinct = (target family, group, outcome)")
 	defer r.Finish(t)
 	var targets []Target
 	targets = append(targets, ParrotTargets(true)...)
@@ -29,6 +29,33 @@ func TestC18(t *testing.T) {
 	}
 	for i := 0; i < mon.Pick(120, 1000); i++ {
 		targets = append(targets, CustomTarget(i))
+	}
+	// every ordered pair of shareable groups in one hello (a Chrome spec with its
+	// supported_groups / key_share replaced): whichever of the two the server selects, the
+	// client must hold that share's private key
+	pairGroups := []tls.CurveID{tls.X25519, tls.CurveP256, tls.CurveP384, tls.CurveP521, tls.X25519MLKEM768, tls.X25519Kyber768Draft00}
+	for _, g1 := range pairGroups {
+		for _, g2 := range pairGroups {
+			if g1 == g2 {
+				continue
+			}
+			g1, g2 := g1, g2
+			targets = append(targets, Target{Name: fmt.Sprintf("pair-%04x-%04x", uint16(g1), uint16(g2)), Spec: func() (*tls.ClientHelloSpec, error) {
+				sp, err := tls.UTLSIdToSpec(tls.HelloChrome_120)
+				if err != nil {
+					return nil, err
+				}
+				for i, e := range sp.Extensions {
+					switch e.(type) {
+					case *tls.SupportedCurvesExtension:
+						sp.Extensions[i] = &tls.SupportedCurvesExtension{Curves: []tls.CurveID{tls.GREASE_PLACEHOLDER, g1, g2, tls.X25519, tls.CurveP256}}
+					case *tls.KeyShareExtension:
+						sp.Extensions[i] = &tls.KeyShareExtension{KeyShares: []tls.KeyShare{{Group: tls.GREASE_PLACEHOLDER, Data: []byte{0}}, {Group: g1}, {Group: g2}}}
+					}
+				}
+				return &sp, nil
+			}})
+		}
 	}
 	conns := mon.Pick(32, 1500)
 	var mu sync.Mutex
